@@ -58,10 +58,14 @@ type c01hPlan struct {
 	// CrashOnPublish k>0: the process dies the k-th time an end-offset update is parked,
 	// i.e. after the upload and before the metadata write: S3 ends up ahead of the store
 	CrashOnPublish int
-	SegBytes   int
-	SegFaults  []vfkit.FaultKind
-	IdxFaults  []vfkit.FaultKind
-	Picks      []int
+	// Policy 1 ("delay publishes"): an end-offset update is released only when nothing else
+	// is parked, newest first — the schedule in which a slow metadata write is overtaken
+	// by everything that can overtake it. Policy 0: picks decide.
+	Policy    int
+	SegBytes  int
+	SegFaults []vfkit.FaultKind
+	IdxFaults []vfkit.FaultKind
+	Picks     []int
 }
 
 func c01hDrawReqs(t *rapid.T, maxReq int, withFetch bool) []c01hReq {
@@ -88,13 +92,23 @@ func c01hDraw(t *rapid.T) c01hPlan {
 	for w := 0; w < nw; w++ {
 		p.Workers = append(p.Workers, c01hDrawReqs(t, 3, false))
 	}
-	nw2 := rapid.IntRange(0, 3).Draw(t, "workers2")
+	nw2 := rapid.SampledFrom([]int{0, 1, 2, 2, 3}).Draw(t, "workers2")
+	// half of the time every phase-2 client works on partition 0 only, so that the cold
+	// open of that partition overlaps with other clients' requests for it
+	samePart := rapid.Bool().Draw(t, "samepart2")
 	for w := 0; w < nw2; w++ {
-		p.Workers2 = append(p.Workers2, c01hDrawReqs(t, 2, true))
+		reqs := c01hDrawReqs(t, 2, true)
+		if samePart {
+			for i := range reqs {
+				reqs[i].Parts = []c01hPart{{Partition: 0, Records: reqs[i].Parts[0].Records}}
+			}
+		}
+		p.Workers2 = append(p.Workers2, reqs)
 	}
 	p.AutoCreate = rapid.IntRange(0, 3).Draw(t, "autocreate") == 0
 	p.CrashAt = rapid.SampledFrom([]int{-1, -1, 2, 4, 6, 9, 13}).Draw(t, "crashat")
 	p.CrashOnPublish = rapid.SampledFrom([]int{0, 0, 0, 1, 2, 3}).Draw(t, "crashonpublish")
+	p.Policy = rapid.SampledFrom([]int{0, 0, 1}).Draw(t, "policy")
 	p.SegBytes = rapid.SampledFrom([]int{0, 0, 150, 400}).Draw(t, "segbytes")
 	fk := rapid.SampledFrom([]vfkit.FaultKind{vfkit.FaultNone, vfkit.FaultNone, vfkit.FaultNone, vfkit.FaultBefore, vfkit.FaultAfter})
 	p.SegFaults = rapid.SliceOfN(fk, 0, 8).Draw(t, "segfaults")
@@ -439,6 +453,24 @@ func c01hRun(t *testing.T, p c01hPlan) (out c01hOut) {
 				k := 0
 				if pi < len(p.Picks) {
 					k = p.Picks[pi] % len(ps)
+				}
+				if p.Policy == 1 {
+					var others []int
+					newest := -1
+					for i, q := range ps {
+						if q.Worker == "store" && strings.HasPrefix(q.Label, "update-offsets") {
+							if newest < 0 || q.ID > ps[newest].ID {
+								newest = i
+							}
+						} else {
+							others = append(others, i)
+						}
+					}
+					if len(others) > 0 {
+						k = others[k%len(others)]
+					} else if newest >= 0 {
+						k = newest
+					}
 				}
 				pi++
 				step++
